@@ -61,6 +61,13 @@ class UlHistories(Stream):
             slow = ia == 1 or ea == 1
             n = rng.range(1, 8 if slow else 40) if quick else rng.range(1, 40)
             cs.append(history(rng, ia, ea, rng.choice(["octet", "carry", "wrap24", "mid"]), n, rng.chance(1, 2)))
+        # messages longer than 4096 octets (UL NAS TRANSPORT with a large payload container), ciphered
+        for ia, ea in ([(2, 2), (1, 1)] if quick else L.PAIRS):
+            h = history(rng, ia, ea, "mid", 2, False)
+            h["ops"].append(send(rng, 2, False, pdu=L.long_msg(rng, rng.choice([4100, 4200, 5000]), True)))
+            h["ops"].append(send(rng, 2, True))
+            h["kind"] = "long-message"
+            cs.append(h)
         return cs
 
     def go_case(self, c):
